@@ -1,0 +1,625 @@
+//go:build verif
+
+package validate
+
+// Runtime-verification hooks, compiled only with build tag "verif".
+//
+// This file is the monitor side of the two hook calls added to pools.go / pools_debug.go:
+//
+//   - verifBorrowed(x) is called right after an object has been taken from a pool,
+//   - verifRedeemed(x) is called right before an object is put back to a pool.
+//
+// It implements (all switchable at run time, everything off by default):
+//
+//   - an ownership automaton per pooled object {owned, free}: a redeem of an object which
+//     is not owned ("double-redeem", "redeem-of-unknown") or a borrow of an object which is
+//     not free ("borrowed-while-owned") is recorded as an event;
+//   - poison on redeem: every field of the redeemed object is overwritten with values which
+//     make any later (stale) use, or any constructor that forgets to reinitialise a field, loud;
+//   - a census of pool traffic: borrows/redeems/re-uses per pool type and the number of
+//     hand-offs of one object between two different goroutines;
+//   - yield injection: runtime.Gosched() on a random subset of the hook calls, i.e. between the
+//     critical sections of two owners of a pooled object.
+//
+// Nothing here is reachable without the build tag (see verif_off.go).
+
+import (
+	"fmt"
+	"math/rand"
+	"reflect"
+	"runtime"
+	"sort"
+	"strings"
+	"sync"
+	"sync/atomic"
+
+	"github.com/go-openapi/spec"
+)
+
+const verifEnabled = true
+
+// VerifPoisonMark is the marker carried by every poisoned string field.
+const VerifPoisonMark = "VERIF-POISON"
+
+// VerifConfig selects the monitors which are active.
+type VerifConfig struct {
+	Track      bool   // ownership automaton (uses shared state: adds synchronisation between goroutines)
+	Poison     bool   // overwrite objects when they are redeemed (touches the redeemed object only)
+	Census     bool   // count cross-goroutine hand-offs (needs Track; parses runtime.Stack)
+	YieldEvery uint32 // >0: Gosched on about one hook call out of YieldEvery (no shared state)
+}
+
+// VerifEvent is a violation of the pool discipline observed by the monitors.
+type VerifEvent struct {
+	Kind  string `json:"kind"`
+	Type  string `json:"type"`
+	Stack string `json:"stack,omitempty"`
+}
+
+// VerifPoolStats is the observed traffic of one pool.
+type VerifPoolStats struct {
+	Borrows  int64 `json:"borrows"`
+	Redeems  int64 `json:"redeems"`
+	Reuses   int64 `json:"reuses"`   // borrows which returned an object that had been redeemed before
+	Handoffs int64 `json:"handoffs"` // re-uses by a goroutine other than the one which redeemed
+}
+
+// VerifStats is a snapshot of everything the monitors observed since the last VerifReset.
+type VerifStats struct {
+	Pools       map[string]VerifPoolStats `json:"pools"`
+	EventCounts map[string]int64          `json:"event_counts"`
+	Events      []VerifEvent              `json:"events,omitempty"` // first few, with stacks
+	Tracked     int64                     `json:"tracked_objects"`
+	Poisoned    int64                     `json:"poisoned_objects"`
+	Yields      int64                     `json:"yields"`
+}
+
+const (
+	verifStateOwned int32 = 1
+	verifStateFree  int32 = 2
+
+	verifMaxKeptEvents = 16
+)
+
+var verifTypeNames = [...]string{
+	"SchemaValidator", "objectValidator", "schemaSliceValidator", "itemsValidator", "basicCommonValidator",
+	"HeaderValidator", "ParamValidator", "basicSliceValidator", "numberValidator", "stringValidator",
+	"schemaPropsValidator", "formatValidator", "typeValidator", "spec.Schema", "Result",
+}
+
+type verifObj struct {
+	state atomic.Int32
+	lastG atomic.Int64 // goroutine which redeemed last (census only)
+}
+
+type verifCounters struct {
+	borrows, redeems, reuses, handoffs atomic.Int64
+}
+
+var (
+	verifTrack  atomic.Bool
+	verifPoison atomic.Bool
+	verifCensus atomic.Bool
+	verifYield  atomic.Uint32
+
+	verifObjs     sync.Map // pooled pointer (as interface) -> *verifObj
+	verifCount    [len(verifTypeNames)]verifCounters
+	verifTracked  atomic.Int64
+	verifPoisoned atomic.Int64
+	verifYields   atomic.Int64
+
+	verifEvMu     sync.Mutex
+	verifEvCounts = map[string]int64{}
+	verifEvents   []VerifEvent
+)
+
+// VerifConfigure switches monitors on and off. Call it at a quiescent point only
+// (no validation in flight), otherwise objects borrowed before the switch look unknown.
+func VerifConfigure(c VerifConfig) {
+	verifTrack.Store(c.Track)
+	verifPoison.Store(c.Poison)
+	verifCensus.Store(c.Census && c.Track)
+	verifYield.Store(c.YieldEvery)
+}
+
+// VerifReset forgets every tracked object and every observation and empties the pools.
+// Call it at a quiescent point only.
+func VerifReset() {
+	resetPools()
+	verifObjs.Range(func(k, _ any) bool {
+		verifObjs.Delete(k)
+		return true
+	})
+	for i := range verifCount {
+		verifCount[i].borrows.Store(0)
+		verifCount[i].redeems.Store(0)
+		verifCount[i].reuses.Store(0)
+		verifCount[i].handoffs.Store(0)
+	}
+	verifTracked.Store(0)
+	verifPoisoned.Store(0)
+	verifYields.Store(0)
+	verifEvMu.Lock()
+	verifEvCounts = map[string]int64{}
+	verifEvents = nil
+	verifEvMu.Unlock()
+}
+
+// VerifSnapshot reports what the monitors observed since the last VerifReset.
+func VerifSnapshot() VerifStats {
+	st := VerifStats{
+		Pools:       make(map[string]VerifPoolStats, len(verifTypeNames)),
+		EventCounts: map[string]int64{},
+		Tracked:     verifTracked.Load(),
+		Poisoned:    verifPoisoned.Load(),
+		Yields:      verifYields.Load(),
+	}
+	for i, n := range verifTypeNames {
+		st.Pools[n] = VerifPoolStats{
+			Borrows:  verifCount[i].borrows.Load(),
+			Redeems:  verifCount[i].redeems.Load(),
+			Reuses:   verifCount[i].reuses.Load(),
+			Handoffs: verifCount[i].handoffs.Load(),
+		}
+	}
+	verifEvMu.Lock()
+	for k, v := range verifEvCounts {
+		st.EventCounts[k] = v
+	}
+	st.Events = append(st.Events, verifEvents...)
+	verifEvMu.Unlock()
+	return st
+}
+
+// VerifEventTotal returns the number of pool-discipline events seen since the last VerifReset.
+func VerifEventTotal() int64 {
+	verifEvMu.Lock()
+	defer verifEvMu.Unlock()
+	var n int64
+	for _, v := range verifEvCounts {
+		n += v
+	}
+	return n
+}
+
+// VerifPoolTypes lists the names of the pooled types, in a fixed order.
+func VerifPoolTypes() []string {
+	out := make([]string, len(verifTypeNames))
+	copy(out, verifTypeNames[:])
+	return out
+}
+
+func verifRecordEvent(kind string, typeIdx int) {
+	tn := "?"
+	if typeIdx >= 0 && typeIdx < len(verifTypeNames) {
+		tn = verifTypeNames[typeIdx]
+	}
+	verifEvMu.Lock()
+	defer verifEvMu.Unlock()
+	verifEvCounts[kind+":"+tn]++
+	if len(verifEvents) < verifMaxKeptEvents {
+		verifEvents = append(verifEvents, VerifEvent{Kind: kind, Type: tn, Stack: verifShortStack()})
+	}
+}
+
+func verifShortStack() string {
+	pcs := make([]uintptr, 24)
+	n := runtime.Callers(4, pcs)
+	frames := runtime.CallersFrames(pcs[:n])
+	var sb strings.Builder
+	for i := 0; i < 14; i++ {
+		f, more := frames.Next()
+		fn := f.Function
+		if idx := strings.LastIndex(fn, "/"); idx >= 0 {
+			fn = fn[idx+1:]
+		}
+		file := f.File
+		if idx := strings.LastIndex(file, "/"); idx >= 0 {
+			file = file[idx+1:]
+		}
+		fmt.Fprintf(&sb, "%s (%s:%d); ", fn, file, f.Line)
+		if !more {
+			break
+		}
+	}
+	return sb.String()
+}
+
+func verifGoroutineID() int64 {
+	var buf [40]byte
+	n := runtime.Stack(buf[:], false)
+	// "goroutine 123 [running]:"
+	var id int64
+	for _, c := range buf[len("goroutine "):n] {
+		if c < '0' || c > '9' {
+			break
+		}
+		id = id*10 + int64(c-'0')
+	}
+	return id
+}
+
+func verifMaybeYield() {
+	n := verifYield.Load()
+	if n == 0 {
+		return
+	}
+	if rand.Uint32()%n == 0 { //nolint:gosec
+		verifYields.Add(1)
+		runtime.Gosched()
+	}
+}
+
+// verifClassify returns the index of the pooled type of x, or -1 when x is a nil pointer or not a pooled type.
+func verifClassify(x any) int {
+	switch p := x.(type) {
+	case *SchemaValidator:
+		if p != nil {
+			return 0
+		}
+	case *objectValidator:
+		if p != nil {
+			return 1
+		}
+	case *schemaSliceValidator:
+		if p != nil {
+			return 2
+		}
+	case *itemsValidator:
+		if p != nil {
+			return 3
+		}
+	case *basicCommonValidator:
+		if p != nil {
+			return 4
+		}
+	case *HeaderValidator:
+		if p != nil {
+			return 5
+		}
+	case *ParamValidator:
+		if p != nil {
+			return 6
+		}
+	case *basicSliceValidator:
+		if p != nil {
+			return 7
+		}
+	case *numberValidator:
+		if p != nil {
+			return 8
+		}
+	case *stringValidator:
+		if p != nil {
+			return 9
+		}
+	case *schemaPropsValidator:
+		if p != nil {
+			return 10
+		}
+	case *formatValidator:
+		if p != nil {
+			return 11
+		}
+	case *typeValidator:
+		if p != nil {
+			return 12
+		}
+	case *spec.Schema:
+		if p != nil {
+			return 13
+		}
+	case *Result:
+		if p != nil {
+			return 14
+		}
+	}
+	return -1
+}
+
+func verifBorrowed[T any](x T) T {
+	verifOnBorrow(any(x))
+	return x
+}
+
+func verifOnBorrow(x any) {
+	if !verifTrack.Load() {
+		verifMaybeYield()
+		return
+	}
+	idx := verifClassify(x)
+	if idx < 0 {
+		return
+	}
+	verifCount[idx].borrows.Add(1)
+	v, loaded := verifObjs.Load(x)
+	if !loaded {
+		o := &verifObj{}
+		o.state.Store(verifStateOwned)
+		if _, dup := verifObjs.LoadOrStore(x, o); dup {
+			// two borrowers got the same never-seen pointer at the same time
+			verifRecordEvent("borrowed-while-owned", idx)
+		} else {
+			verifTracked.Add(1)
+		}
+		verifMaybeYield()
+		return
+	}
+	o := v.(*verifObj)
+	if !o.state.CompareAndSwap(verifStateFree, verifStateOwned) {
+		verifRecordEvent("borrowed-while-owned", idx)
+	} else {
+		verifCount[idx].reuses.Add(1)
+		if verifCensus.Load() {
+			if g := verifGoroutineID(); o.lastG.Load() != g {
+				verifCount[idx].handoffs.Add(1)
+			}
+		}
+	}
+	verifMaybeYield()
+}
+
+func verifRedeemed(x any) {
+	idx := verifClassify(x)
+	if idx < 0 {
+		return
+	}
+	if r, ok := x.(*Result); ok && r == emptyResult {
+		return
+	}
+	if verifTrack.Load() {
+		verifCount[idx].redeems.Add(1)
+		v, loaded := verifObjs.Load(x)
+		if !loaded {
+			verifRecordEvent("redeem-of-unknown", idx)
+			o := &verifObj{}
+			o.state.Store(verifStateFree)
+			verifObjs.LoadOrStore(x, o)
+		} else {
+			o := v.(*verifObj)
+			if verifCensus.Load() {
+				o.lastG.Store(verifGoroutineID())
+			}
+			if !o.state.CompareAndSwap(verifStateOwned, verifStateFree) {
+				verifRecordEvent("double-redeem", idx)
+			}
+		}
+	}
+	if verifPoison.Load() {
+		verifPoisonObject(x)
+		verifPoisoned.Add(1)
+	}
+	verifMaybeYield()
+}
+
+// ---- poison ---------------------------------------------------------------------------------
+
+type verifPoisonError struct{}
+
+func (verifPoisonError) Error() string { return VerifPoisonMark + ": content of a recycled object" }
+
+// verifStale stands in for the child validators of a redeemed validator.
+type verifStale struct{}
+
+func (verifStale) SetPath(string) {}
+
+func (verifStale) Applies(interface{}, reflect.Kind) bool {
+	verifRecordEvent("stale-child-use", -1)
+	return true
+}
+
+func (verifStale) Validate(interface{}) *Result {
+	verifRecordEvent("stale-child-use", -1)
+	return &Result{Errors: []error{verifPoisonError{}}}
+}
+
+var (
+	verifNeg   = int64(-1)
+	verifHuge  = int64(1) << 40
+	verifNegF  = -1e300
+	verifPosF  = 1e300
+	verifBadF  = -1.0
+	verifOnce  sync.Once
+	verifRejSV *SchemaValidator // rejects every value, path VERIF-POISON
+	verifAccSV *SchemaValidator // accepts every value
+)
+
+// verifRejectSchema returns a fresh schema which rejects every instance.
+func verifRejectSchema() *spec.Schema {
+	s := &spec.Schema{}
+	s.Not = &spec.Schema{}
+	s.Title = VerifPoisonMark
+	return s
+}
+
+func verifSentinels() (*SchemaValidator, *SchemaValidator) {
+	verifOnce.Do(func() {
+		verifRejSV = newSchemaValidator(verifRejectSchema(), nil, VerifPoisonMark, nil, &SchemaValidatorOptions{})
+		verifAccSV = newSchemaValidator(&spec.Schema{}, nil, VerifPoisonMark, nil, &SchemaValidatorOptions{})
+	})
+	return verifRejSV, verifAccSV
+}
+
+func verifPoisonItems() *spec.Items {
+	it := &spec.Items{}
+	it.Type = VerifPoisonMark
+	it.Format = VerifPoisonMark
+	it.Pattern = VerifPoisonMark + "("
+	it.Enum = []interface{}{VerifPoisonMark}
+	it.MaxLength = &verifNeg
+	it.MaxItems = &verifNeg
+	it.Maximum = &verifNegF
+	return it
+}
+
+func verifStaleSlots6() [6]valueValidator {
+	return [6]valueValidator{verifStale{}, verifStale{}, verifStale{}, verifStale{}, verifStale{}, verifStale{}}
+}
+
+func verifPoisonObject(x any) {
+	const mark = VerifPoisonMark
+	switch s := x.(type) {
+	case *SchemaValidator:
+		s.Path, s.in = mark, mark
+		s.Schema = verifRejectSchema()
+		s.validators = [8]valueValidator{
+			verifStale{}, verifStale{}, verifStale{}, verifStale{}, verifStale{}, verifStale{}, verifStale{}, verifStale{},
+		}
+		s.Root = verifRejectSchema()
+		s.KnownFormats = nil
+		s.Options = nil
+	case *objectValidator:
+		s.Path, s.In = mark, mark
+		s.MaxProperties, s.MinProperties = &verifNeg, &verifHuge
+		s.Required = []string{mark}
+		s.Properties = map[string]spec.Schema{mark: *verifRejectSchema()}
+		s.AdditionalProperties = &spec.SchemaOrBool{Allows: false}
+		s.PatternProperties = map[string]spec.Schema{".*": *verifRejectSchema()}
+		s.Root = verifRejectSchema()
+		s.KnownFormats = nil
+		s.Options = nil
+		s.splitPath = []string{mark}
+	case *schemaSliceValidator:
+		s.Path, s.In = mark, mark
+		s.MaxItems, s.MinItems = &verifNeg, &verifHuge
+		s.UniqueItems = true
+		s.AdditionalItems = &spec.SchemaOrBool{Allows: false}
+		s.Items = &spec.SchemaOrArray{Schema: verifRejectSchema()}
+		s.Root = verifRejectSchema()
+		s.KnownFormats = nil
+		s.Options = nil
+	case *itemsValidator:
+		s.items = verifPoisonItems()
+		s.root = nil
+		s.path, s.in = mark, mark
+		s.validators = verifStaleSlots6()
+		s.KnownFormats = nil
+		s.Options = nil
+	case *basicCommonValidator:
+		s.Path, s.In = mark, mark
+		s.Default = mark
+		s.Enum = []interface{}{mark}
+		s.Options = nil
+	case *HeaderValidator:
+		s.name = mark
+		h := &spec.Header{}
+		h.Type, h.Format = mark, mark
+		s.header = h
+		s.validators = verifStaleSlots6()
+		s.KnownFormats = nil
+		s.Options = nil
+	case *ParamValidator:
+		p := &spec.Parameter{}
+		p.Name, p.In = mark, mark
+		p.Type, p.Format = mark, mark
+		s.param = p
+		s.validators = verifStaleSlots6()
+		s.KnownFormats = nil
+		s.Options = nil
+	case *basicSliceValidator:
+		s.Path, s.In = mark, mark
+		s.Default = mark
+		s.MaxItems, s.MinItems = &verifNeg, &verifHuge
+		s.UniqueItems = true
+		s.Items = verifPoisonItems()
+		s.Source = nil
+		s.KnownFormats = nil
+		s.Options = nil
+	case *numberValidator:
+		s.Path, s.In = mark, mark
+		s.Default = mark
+		s.MultipleOf = &verifBadF
+		s.Maximum, s.Minimum = &verifNegF, &verifPosF
+		s.ExclusiveMaximum, s.ExclusiveMinimum = true, true
+		s.Type, s.Format = mark, mark
+		s.Options = nil
+	case *stringValidator:
+		s.Path, s.In = mark, mark
+		s.Default = nil
+		s.Required, s.AllowEmptyValue = true, false
+		s.MaxLength, s.MinLength = &verifNeg, &verifHuge
+		s.Pattern = mark + "("
+		s.Options = nil
+	case *schemaPropsValidator:
+		rej, acc := verifSentinels()
+		s.Path, s.In = mark, mark
+		s.AllOf = []spec.Schema{*verifRejectSchema()}
+		s.OneOf = []spec.Schema{*verifRejectSchema()}
+		s.AnyOf = []spec.Schema{*verifRejectSchema()}
+		s.Not = &spec.Schema{}
+		s.Dependencies = spec.Dependencies{mark: spec.SchemaOrStringArray{Property: []string{mark}}}
+		s.anyOfValidators = []*SchemaValidator{rej}
+		s.allOfValidators = []*SchemaValidator{rej}
+		s.oneOfValidators = []*SchemaValidator{rej}
+		s.notValidator = acc
+		s.Root = verifRejectSchema()
+		s.KnownFormats = nil
+		s.Options = nil
+	case *formatValidator:
+		s.Path, s.In = mark, mark
+		s.Format = mark
+		s.KnownFormats = nil
+		s.Options = nil
+	case *typeValidator:
+		s.Path, s.In = mark, mark
+		s.Type = spec.StringOrArray{mark}
+		s.Nullable = false
+		s.Format = mark
+		s.Options = nil
+	case *spec.Schema:
+		*s = *verifRejectSchema()
+		s.Default = mark
+		s.Required = []string{mark}
+	case *Result:
+		// In-place overwrites are limited to the backing arrays the next owner of the object
+		// appends to itself (cleared() keeps their capacity): whoever still aliases them is
+		// exposed to the same overwrite by the next legitimate owner.
+		for i := range s.Errors {
+			s.Errors[i] = verifPoisonError{}
+		}
+		s.Errors = append(s.Errors[:0], verifPoisonError{})
+		for i := range s.Warnings {
+			s.Warnings[i] = verifPoisonError{}
+		}
+		s.Warnings = append(s.Warnings[:0], verifPoisonError{})
+		s.MatchCount = 1 << 30
+		s.data = mark
+		s.rootObjectSchemata.one = verifRejectSchema()
+		s.rootObjectSchemata.multiple = nil
+		pm := map[string]interface{}{mark: mark}
+		for i := range s.fieldSchemata {
+			s.fieldSchemata[i] = fieldSchemata{obj: pm, field: mark, schemata: schemata{one: verifRejectSchema()}}
+		}
+		s.fieldSchemata = append(s.fieldSchemata[:0], fieldSchemata{obj: pm, field: mark, schemata: schemata{one: verifRejectSchema()}})
+		ps := reflect.ValueOf([]interface{}{mark})
+		for i := range s.itemSchemata {
+			s.itemSchemata[i] = itemSchemata{slice: ps, index: 0, schemata: schemata{one: verifRejectSchema()}}
+		}
+		s.itemSchemata = append(s.itemSchemata[:0], itemSchemata{slice: ps, index: 0, schemata: schemata{one: verifRejectSchema()}})
+		if s.cachedFieldSchemata != nil {
+			s.cachedFieldSchemata[NewFieldKey(pm, mark)] = []*spec.Schema{verifRejectSchema()}
+		}
+		if s.cachedItemSchemata != nil {
+			s.cachedItemSchemata[NewItemKey([]interface{}{mark}, 0)] = []*spec.Schema{verifRejectSchema()}
+		}
+		// wantsRedeemOnMerge is left alone: poison must not itself cause a second redeem.
+	}
+}
+
+// VerifPoisonedFields inspects a pooled-type value and reports the names of the string fields
+// which still carry the poison mark (used by the harness to check re-initialisation coverage).
+func VerifPoisonedFields(x any) []string {
+	v := reflect.Indirect(reflect.ValueOf(x))
+	if !v.IsValid() || v.Kind() != reflect.Struct {
+		return nil
+	}
+	var out []string
+	for i := 0; i < v.NumField(); i++ {
+		f := v.Field(i)
+		if f.Kind() == reflect.String && strings.Contains(f.String(), VerifPoisonMark) {
+			out = append(out, v.Type().Field(i).Name)
+		}
+	}
+	sort.Strings(out)
+	return out
+}
